@@ -19,6 +19,7 @@ import (
 	"net"
 	"os"
 	"strconv"
+	"strings"
 	"sync"
 	"syscall"
 	"time"
@@ -44,6 +45,8 @@ type World struct {
 	blockedSrc map[string]bool
 	addrPool   []net.TCPAddr
 	addrNext   int
+	unixPorts  map[string]int
+	unixNext   int
 	// Yield, if set, is called at the start of every Write on an endpoint
 	// accepted by a daemon: a write is a system call, and other goroutines
 	// run while it is in progress.
@@ -181,10 +184,47 @@ func parseAddr(addr string) (*net.TCPAddr, error) {
 
 func key(a *net.TCPAddr) string { return strconv.Itoa(a.Port) }
 
+// ---------------------------------------------------------------- unix-domain sockets
+//
+// A listen or dial address that contains a '/' is a unix-domain socket path (that is how nsqd tells
+// them apart). Inside, such a socket is an ordinary simulated stream on a port of its own; towards the
+// code under test its addresses are *net.UnixAddr: the listener's is the path, a client's is the
+// unnamed address "@" - the same text for every client, as on a real system.
+
+var unixArena [4096]net.UnixAddr
+
+func isUnixPath(address string) bool { return strings.Contains(address, "/") }
+
+// unixPort maps a socket path to the port it occupies inside the simulation (w.mu held).
+func (w *World) unixPort(path string) int {
+	if w.unixPorts == nil {
+		w.unixPorts = map[string]int{}
+	}
+	p, ok := w.unixPorts[path]
+	if !ok {
+		p = 60000 + len(w.unixPorts)
+		w.unixPorts[path] = p
+	}
+	return p
+}
+
+func (w *World) newUnixAddr(name string) *net.UnixAddr {
+	w.mu.Lock()
+	defer w.mu.Unlock()
+	if w.unixNext < len(unixArena) {
+		a := &unixArena[w.unixNext]
+		w.unixNext++
+		a.Name, a.Net = name, "unix"
+		return a
+	}
+	return &net.UnixAddr{Name: name, Net: "unix"}
+}
+
 // ---------------------------------------------------------------- listener
 
 type Listener struct {
 	w      *World
+	unix   *net.UnixAddr // non-nil: a unix-domain socket listener
 	addr   *net.TCPAddr
 	mu     sync.Mutex
 	cond   *sync.Cond
@@ -213,6 +253,13 @@ func TLSListen(network, address string, cfg *tls.Config) (net.Listener, error) {
 }
 
 func (w *World) Listen(network, address string) (*Listener, error) {
+	var ux *net.UnixAddr
+	if isUnixPath(address) {
+		ux = w.newUnixAddr(address)
+		w.mu.Lock()
+		address = "127.0.0.1:" + strconv.Itoa(w.unixPort(address))
+		w.mu.Unlock()
+	}
 	a, err := parseAddr(address)
 	if err != nil {
 		return nil, opErr("listen", nil, err)
@@ -231,7 +278,7 @@ func (w *World) Listen(network, address string) (*Listener, error) {
 	if _, used := w.listeners[key(a)]; used {
 		return nil, opErr("listen", a, syscall.EADDRINUSE)
 	}
-	l := &Listener{w: w, addr: a}
+	l := &Listener{w: w, addr: a, unix: ux}
 	l.cond = sync.NewCond(&l.mu)
 	w.listeners[key(a)] = l
 	return l, nil
@@ -276,7 +323,12 @@ func (l *Listener) Close() error {
 	return nil
 }
 
-func (l *Listener) Addr() net.Addr { return l.addr }
+func (l *Listener) Addr() net.Addr {
+	if l.unix != nil {
+		return l.unix
+	}
+	return l.addr
+}
 
 // ---------------------------------------------------------------- pipes
 
@@ -318,6 +370,7 @@ type Conn struct {
 	in, out  *half
 	local    *net.TCPAddr
 	remote   *net.TCPAddr
+	localUnix, remoteUnix *net.UnixAddr // set on the endpoints of a unix-domain socket connection
 	peer     *Conn
 	isServer bool
 	closed   bool
@@ -577,8 +630,19 @@ func (c *Conn) PendingIn() int {
 	return len(c.in.buf)
 }
 
-func (c *Conn) LocalAddr() net.Addr  { return c.local }
-func (c *Conn) RemoteAddr() net.Addr { return c.remote }
+func (c *Conn) LocalAddr() net.Addr {
+	if c.localUnix != nil {
+		return c.localUnix
+	}
+	return c.local
+}
+
+func (c *Conn) RemoteAddr() net.Addr {
+	if c.remoteUnix != nil {
+		return c.remoteUnix
+	}
+	return c.remote
+}
 
 func (c *Conn) SetDeadline(t time.Time) error {
 	c.SetReadDeadline(t)
@@ -702,6 +766,11 @@ func (w *World) DialFrom(srcIP net.IP, address string) (*Conn, error) {
 }
 
 func (w *World) dial(ctx context.Context, address string, srcIP net.IP, timeout time.Duration) (*Conn, error) {
+	if isUnixPath(address) {
+		w.mu.Lock()
+		address = "127.0.0.1:" + strconv.Itoa(w.unixPort(address))
+		w.mu.Unlock()
+	}
 	a, err := parseAddr(address)
 	if err != nil {
 		return nil, opErr("dial", nil, err)
@@ -758,6 +827,10 @@ func (w *World) dial(ctx context.Context, address string, srcIP net.IP, timeout 
 	sv := &Conn{w: w, in: c2s, out: s2c, local: l.addr, remote: la, isServer: true, ShortReads: true}
 	cl.peer, sv.peer = sv, cl
 	c2s.owner, s2c.owner = cl, sv
+	if l.unix != nil {
+		cl.remoteUnix, sv.localUnix = l.unix, l.unix
+		cl.localUnix, sv.remoteUnix = w.newUnixAddr("@"), w.newUnixAddr("@")
+	}
 	w.mu.Lock()
 	w.conns = append(w.conns, cl)
 	cl.ID = len(w.conns)
